@@ -1,6 +1,6 @@
 """Free-running contender for C02 / C13 (Engines B and C): real threading, real flock.
 
-argv: lockpath markerdir nthreads rounds seed inject(0/1) [forever]
+argv: lockpath markerdir nthreads rounds seed inject(0/1) [forever|- [modes [inject_p [fork_p]]]]
 Prints one JSON line: entries, refused, overlaps, errors, yields.
 """
 import json
@@ -17,6 +17,7 @@ def main():
     forever = len(sys.argv) > 7 and sys.argv[7] == 'forever'
     modes = sys.argv[8].split(',') if len(sys.argv) > 8 else ['with', 'acq', 'nb', 'timed', 'ctx']
     inject_p = float(sys.argv[9]) if len(sys.argv) > 9 else 0.08
+    fork_p = float(sys.argv[10]) if len(sys.argv) > 10 else 0.0     # chance that a holder forks a helper inside the section
     import logging
     logging.disable(logging.CRITICAL)
     import aiuti.filelock as F
@@ -43,7 +44,7 @@ def main():
             mon.set_local_events(4, co, mon.events.LINE)
     objs = [F.FileLock(lock_path, timeout=(0.02 if seed & 2 else -1), reentrant=bool(seed & 1))
             for _ in range(2)]
-    res = {'entries': 0, 'refused': 0, 'overlaps': [], 'errors': [], 'yields': 0}
+    res = {'entries': 0, 'refused': 0, 'overlaps': [], 'errors': [], 'yields': 0, 'forks': 0}
     mu = threading.Lock()
     stop = threading.Event()
     if forever:
@@ -75,6 +76,16 @@ def main():
                 with open(tmpname, 'w') as f:
                     f.write(str(n))
                 os.replace(tmpname, progress)      # readers never see a truncated file
+            if fork_p and rng.random() < fork_p:
+                # the holder starts a helper process from inside the section (the child inherits the descriptor,
+                # touches nothing and leaves at once); the lock must stay the parent's until the parent releases it
+                pid = os.fork()
+                if pid == 0:
+                    os._exit(0)
+                os.waitpid(pid, 0)
+                with mu:
+                    res['forks'] += 1
+                time.sleep(0.004)
             time.sleep(rng.choice([0, 0, 0.0005, 0.002]))
         finally:
             os.unlink(marker)
